@@ -145,7 +145,20 @@ def run(plan):
             elif step == "force":
                 o = await capture(w, c.login(force=True))
             elif step == "expire":
-                cloud.sessions.clear()
+                cloud.expire_sessions()
+                continue
+            elif step == "token_on_expired_session":
+                # the server has dropped the session: this request is answered with "invalid session" (3106)
+                o = await capture(w, c.get_token(udpid))
+                if not check_requests():
+                    return
+                if o.kind == "ok":
+                    res.fail("get_token succeeded on a session the server had dropped", repr(o.value))
+                    return
+                if not isinstance(o.exc, CE):
+                    res.fail(f"API error surfaced as {o.exc_type} instead of a cloud error", repr(o.exc))
+                    return
+                w.fire("api_invalid_session")
                 continue
             else:
                 o = await capture(w, c.get_token(udpid))
@@ -178,6 +191,7 @@ def run(plan):
             for k, v in plan.get("state", {}).items():
                 dev.state[k] = v
             dev.state["fan"] = 20 + i
+            dev.silent_on_bad_token = bool(plan.get("silent_on_bad_token"))   # firmware that ignores unknown tokens
             w.net.listen(ip, 6444, dev)
             reply = good_reply(3, dev_id, ip, 6444, "000000P0000000Q1B88C29C963BA0000", "net_ac_63BA")
             w.net.add_udp_host(ip, RefHost(ip, [(0.05 + 0.001 * i * plan.get("stagger", 0), 6445, reply)]))
@@ -341,6 +355,7 @@ def space(tier):
         p["twice"] = rng.random() < 0.3
         if p["twice"]:
             p.pop("faults", None)
+        p["silent_on_bad_token"] = rng.random() < 0.3
         return p
     sp.add("e2e", 1500 if tier == "quick" else 150_000, e2e)
 
@@ -351,6 +366,8 @@ def space(tier):
         for _ in range(rng.randint(1, 4)):
             steps.append(rng.choice(["force", "force", "token", "login", "expire"]))
             if steps[-1] == "expire":
+                if rng.random() < 0.5:
+                    steps.append("token_on_expired_session")
                 steps.append("force")
         steps.append("token")
         p["steps"] = steps
